@@ -352,7 +352,12 @@ PROPS['C06'] = plan_check(PLAN_C06)
 def _load_plugins():
     import importlib
     for f in sorted(glob.glob(os.path.join(os.path.dirname(os.path.abspath(__file__)), 'p_*.py'))):
-        m = importlib.import_module(os.path.basename(f)[:-3])
+        try:
+            m = importlib.import_module(os.path.basename(f)[:-3])
+        except Exception as e:  # a broken plug-in must not take the other checks down
+            import sys
+            print('warning: plug-in %s not loaded: %s' % (os.path.basename(f), e), file=sys.stderr)
+            continue
         for pid in getattr(m, 'IDS', []):
             PROPS[pid] = m.check
 
